@@ -6,8 +6,8 @@
 (***************************************************************************)
 EXTENDS PadBytes, Json, IOUtils
 Traces == ndJsonDeserialize(IOEnv.TRACE_FILE)
-VARIABLES tid, i, st, nbad
-vars == <<tid, i, st, nbad>>
+VARIABLES vvTid, vvPos, vvSt, vvBad
+
 
 C(name, exp) == [c |-> name, e |-> exp]
 \* verdict of one event e in state s: [st |-> next specified state, bad |-> failed clauses]
@@ -30,10 +30,10 @@ Judge(sch, s, e) ==
                   ELSE IF e.raised # "" THEN <<C("must-not-raise", u.val)>>
                   ELSE IF e.out # u.val THEN <<C("unpadded", u.val)>> ELSE <<>>]
 
-Init == tid \in 1..Len(Traces) /\ i = 0 /\ st = PadInit /\ nbad = 0
-Next == /\ i < Len(Traces[tid].ev)
-        /\ \E j \in {LET e == Traces[tid].ev[i+1] IN Judge(Traces[tid].sch, st, e)} :     \* bound once (an action-level LET would be re-evaluated at every use)
-           /\ st' = j.st /\ i' = i + 1 /\ nbad' = nbad + Len(j.bad) /\ UNCHANGED tid
-           /\ (j.bad # <<>> => PrintT(ToJson([tid |-> tid, step |-> i+1, bad |-> j.bad])))
-           /\ (i + 1 = Len(Traces[tid].ev) => PrintT(ToJson([tid |-> tid, done |-> TRUE, nbad |-> nbad'])))
+Init == vvTid \in 1..Len(Traces) /\ vvPos = 0 /\ vvSt = PadInit /\ vvBad = 0
+Next == /\ vvPos < Len(Traces[vvTid].ev)
+        /\ \E j \in {LET e == Traces[vvTid].ev[vvPos+1] IN Judge(Traces[vvTid].sch, vvSt, e)} :     \* bound once (an action-level LET would be re-evaluated at every use)
+           /\ vvSt' = j.st /\ vvPos' = vvPos + 1 /\ vvBad' = vvBad + Len(j.bad) /\ UNCHANGED vvTid
+           /\ (j.bad # <<>> => PrintT(ToJson([tid |-> vvTid, step |-> vvPos+1, bad |-> j.bad])))
+           /\ (vvPos + 1 = Len(Traces[vvTid].ev) => PrintT(ToJson([tid |-> vvTid, done |-> TRUE, nbad |-> vvBad'])))
 =============================================================================
